@@ -661,6 +661,34 @@ fn ep_c14(s: &mut S, r: &mut Rng, maxc: usize, maxr: usize) {
     s.feed_str(a, "\x1b[?1047l", true);
     s.feed_str(b, "\x1b[?1047l", true);
     s.rel("NoLoss", &[a, b]);
+    // util::TextCollector: the same text for every limit and every chunking
+    if r.chance(1, 2) {
+        let lims = [lim, -1, *r.pick(&[0i64, 1, 2, 10])];
+        let tcs: Vec<usize> = lims.iter().map(|l| s.tc_new(c, rr, *l)).collect();
+        let mut input = String::new();
+        for _ in 0..r.range(2, 12) {
+            input.push_str(&scrolly(r, c, rr));
+        }
+        input.push_str("\x1b[?1047l");
+        let cs: Vec<char> = input.chars().collect();
+        for (i, k) in tcs.iter().enumerate() {
+            if i == 0 {
+                s.tc_feed(*k, &input);
+            } else {
+                let mut j = 0;
+                while j < cs.len() {
+                    let n = r.range(1, (cs.len() - j).min(9));
+                    let piece: String = cs[j..j + n].iter().collect();
+                    s.tc_feed(*k, &piece);
+                    j += n;
+                }
+            }
+        }
+        for k in tcs.iter() {
+            s.tc_flush(*k);
+        }
+        s.tc_rel(&tcs);
+    }
 }
 
 // ---------------------------------------------------------------------------------- C16
